@@ -1,7 +1,248 @@
 import Rare.Base.Proto
+import Rare.Model.C07
+/-!
+Line-protocol driver for C07 (see `harness/corr/c07.go` for the op list and dump formats).
+
+`Float` appears only in this file: the polymorphic numerical model (`Rare.C07.Numerical`) is
+instantiated with IEEE doubles so that its answers can be compared bit for bit with the Go code
+(same operations in the same order; Go on amd64 does not fuse multiply-add), and the float results
+are additionally checked against the exact rational instance of the same model (`tol=ok`).
+-/
 namespace Rare.Drv.C07
+open Rare Rare.C07 Rare.Proto
+
+def sortByKey {α : Type} (l : List (Bytes × α)) : List (Bytes × α) :=
+  l.mergeSort fun a b => !bLt b.1 a.1
+
+def commaJoin (l : List String) : String := ",".intercalate l
+
+def dumpCounter (c : Counter) : String :=
+  let items := (sortByKey c.items).map fun (k, v) => s!"{Hex.enc k}={v}"
+  s!"e={c.errors} t={c.total} n={c.items.length} [{commaJoin items}]"
+
+def dumpSubKey (c : SubKeyCounter) : String :=
+  let items := (sortByKey c.items).map fun (k, it) =>
+    s!"{Hex.enc k}={it.count}({commaJoin (it.submatches.map toString)})"
+  s!"e={c.errors} sk={hexList c.subKeys} [{commaJoin items}]"
+
+def dumpTable (t : Table) : String :=
+  let cols := (akeys t.cols).mergeSort fun a b => !bLt b a
+  let cparts := cols.map fun c => s!"{Hex.enc c}={t.colTotal c}"
+  let rparts := (sortByKey t.rows).map fun (_, r) =>
+    s!"{Hex.enc r.name}={r.sum}({commaJoin (cols.map fun c => toString (r.value c))})"
+  let mm := t.computeMinMax
+  s!"e={t.errors} rc={t.rows.length} cc={t.cols.length} sum={t.sum} min={mm.1} max={mm.2} cols[{commaJoin cparts}] rows[{commaJoin rparts}]"
+
+/-- scan-left: the model state after every prefix. -/
+def prefixes {σ : Type} (step : σ → Bytes → σ) (init : σ) (h : List Bytes) : List σ :=
+  (h.foldl (fun (acc : σ × List σ) e => let s := step acc.1 e; (s, s :: acc.2)) (init, [])).2.reverse
+
+def bar (l : List String) : String := " | ".intercalate l
+
+/-! table ops -/
+
+structure PredSpec where
+  neg : Bool
+  cols : List Bytes
+  rows : List Bytes
+  lo : Int
+  hi : Int
+
+def PredSpec.eval (p : PredSpec) : Pred := fun c r v =>
+  (p.cols.contains c || p.rows.contains r || (decide (p.lo ≤ v) && decide (v ≤ p.hi))) != p.neg
+
+inductive TOp
+  | sample (e : Bytes)
+  | trim (p : PredSpec)
+
+def parseTOp (s : String) : Option TOp :=
+  match s.splitOn ":" with
+  | ["s", h] => (Hex.dec h).map TOp.sample
+  | ["t", n, cs, rs, lo, hi] => do
+    let cs ← decHexList cs
+    let rs ← decHexList rs
+    let lo ← lo.toInt?
+    let hi ← hi.toInt?
+    pure (TOp.trim ⟨n == "1", cs, rs, lo, hi⟩)
+  | _ => none
+
+def runTable (d : Bytes) (ops : List TOp) : String :=
+  let (_, outs) := ops.foldl (fun (acc : Table × List String) op =>
+    match op with
+    | .sample e => let t := acc.1.sample e; (t, dumpTable t :: acc.2)
+    | .trim p =>
+      -- insertion order as the map order; reversed order must agree (cheap self-check, the theorem covers all orders)
+      let r := acc.1.trim p.eval (akeys acc.1.cols) (fun _ => akeys acc.1.rows)
+      let r2 := acc.1.trim p.eval (akeys acc.1.cols).reverse (fun _ => (akeys acc.1.rows).reverse)
+      let tag := if dumpTable r.1 == dumpTable r2.1 && r.2 == r2.2 then "" else "order-dependent "
+      (r.1, s!"{tag}trim={r.2} {dumpTable r.1}" :: acc.2)) (({ delim := d } : Table), [])
+  "ok " ++ bar outs.reverse
+
+/-! numerical: decimal parsing, exact double conversion -/
+
+inductive PF
+  | val (q : Rat)
+  | invalid
+  | unmodelled
+
+def isDig (b : UInt8) : Bool := 48 ≤ b && b ≤ 57
+
+/-- Characters that can occur in some valid `strconv.ParseFloat` input (decimal/hex floats, inf, nan, `_`). -/
+def floatish (b : UInt8) : Bool :=
+  isDig b || b == 43 || b == 45 || b == 46 || b == 95 ||
+  (ascii "abcdefABCDEFxXpPiInNtTyY").contains b
+
+/-- `strconv.ParseFloat(s, 64)` restricted to `[+-]digits[.digits]` spellings (exact value). -/
+def parseDec (s : Bytes) : PF :=
+  if !s.all floatish then .invalid
+  else if !s.all (fun b => isDig b || b == 43 || b == 45 || b == 46) then .unmodelled
+  else
+    let (neg, r) := match s with
+      | 43 :: r => (false, r)
+      | 45 :: r => (true, r)
+      | r => (false, r)
+    let ip := r.takeWhile isDig
+    let rest := r.dropWhile isDig
+    let (fp, ok) := match rest with
+      | [] => (([] : Bytes), true)
+      | 46 :: f => (f, f.all isDig)
+      | _ => ([], false)
+    if !ok || (ip.isEmpty && fp.isEmpty) then .invalid
+    else
+      let n : Nat := digitsVal (ip ++ fp) 0
+      let q : Rat := (n : Rat) / ((10 ^ fp.length : Nat) : Rat)
+      .val (if neg then -q else q)
+
+def normUp (n d : Nat) (e : Int) (fuel : Nat := 4000) : Int :=
+  match fuel with
+  | 0 => e
+  | fuel + 1 =>
+  let num := if e ≥ 0 then n else n * 2 ^ (-e).toNat
+  let den := if e ≥ 0 then d * 2 ^ e.toNat else d
+  if num / den ≥ 2 ^ 53 then normUp n d (e + 1) fuel
+  else if num / den < 2 ^ 52 then normUp n d (e - 1) fuel
+  else e
+
+/-- Correctly rounded (half to even) conversion of a rational in the normal double range. -/
+def ratToFloat (q : Rat) : Float :=
+  if q = 0 then 0.0
+  else
+    let n := q.num.natAbs
+    let d := q.den
+    let e := normUp n d ((n.log2 : Int) - (d.log2 : Int) - 52)
+    let num := if e ≥ 0 then n else n * 2 ^ (-e).toNat
+    let den := if e ≥ 0 then d * 2 ^ e.toNat else d
+    let qt := num / den
+    let rem := num % den
+    let m := if 2 * rem > den then qt + 1 else if 2 * rem = den then qt + qt % 2 else qt
+    let f := Float.scaleB (Float.ofNat m) e
+    if q < 0 then -f else f
+
+/-- Exact value of a finite double. -/
+def floatToRat (f : Float) : Option Rat :=
+  let b := f.toBits.toNat
+  let sign := b / 2 ^ 63
+  let ex : Nat := (b / 2 ^ 52) % 2048
+  let mant := b % 2 ^ 52
+  if ex = 2047 then none
+  else
+    let (m, e) : Nat × Int := if ex = 0 then (mant, -1074) else (2 ^ 52 + mant, (ex : Int) - 1075)
+    let v : Rat := if e ≥ 0 then ((m * 2 ^ e.toNat : Nat) : Rat) else (m : Rat) / ((2 ^ (-e).toNat : Nat) : Rat)
+    some (if sign = 1 then -v else v)
+
+def floatOps : NumOps Float :=
+  { add := (· + ·), sub := (· - ·), mul := (· * ·), div := (· / ·), ofNat := Float.ofNat,
+    lt := fun a b => decide (a < b), zero := 0.0,
+    maxVal := Float.ofBits 0x7FEFFFFFFFFFFFFF, negMaxVal := Float.ofBits 0xFFEFFFFFFFFFFFFF }
+
+/-- bits of a double, both zeros printed as +0 (sort order of -0/+0 is unspecified in Go). -/
+def bits (f : Float) : String := if f == 0.0 then "0" else toString f.toBits.toNat
+
+def rabs (q : Rat) : Rat := if q < 0 then -q else q
+
+/-- Float results of the model against the exact rational run of the same model on the same doubles. -/
+def tolCheck (vals : List Float) : String :=
+  match vals.mapM floatToRat with
+  | none => "tol=nonfinite"
+  | some qs =>
+    let sf := vals.foldl (Numerical.samplef floatOps false) (Numerical.new floatOps)
+    let sq := qs.foldl (Numerical.samplef ratOps false) (Numerical.new ratOps)
+    match floatToRat sf.mean, floatToRat (sf.varianceOf floatOps), floatToRat (sf.varianceOf floatOps).sqrt with
+    | some mf, some vf, some sdf =>
+      if qs.isEmpty then "tol=ok" else
+      let n : Rat := (qs.length : Rat)
+      let maxAbs := qs.foldl (fun a x => if rabs x > a then rabs x else a) 0
+      let spread := sq.max - sq.min
+      let eps : Rat := 1 / 4503599627370496
+      let delta := 2 * eps * n * (1 + maxAbs)
+      let vq := sq.varianceOf ratOps
+      let okMean : Bool := decide <| rabs (mf - sq.mean) ≤ delta
+      let okVar : Bool := decide <| rabs (vf - vq) ≤ vq / 1000000000 + 4 * delta * spread * 2 + delta * delta
+      let okSd : Bool := decide <| rabs (sdf * sdf - vf) ≤ 4 * eps * vf
+      let okMin := floatToRat sf.min == some sq.min && floatToRat sf.max == some sq.max
+      if okMean && okVar && okSd && okMin then "tol=ok"
+      else s!"tol=bad(mean={okMean},var={okVar},sd={okSd},minmax={okMin})"
+    | _, _, _ => "tol=nonfinite"
+
+def runNum (keep rev : Bool) (hist : List Bytes) (qs : List String) : String :=
+  let parsed := hist.map parseDec
+  if parsed.any (fun p => match p with | .unmodelled => true | _ => false) then "unmodelled parsefloat-spelling"
+  else
+    match qs.mapM (fun q => match parseDec (ascii q) with | .val v => some (ratToFloat v) | _ => none) with
+    | none => "bad-args"
+    | some ps =>
+      let step := fun (s : Numerical Float) (p : PF) =>
+        match p with
+        | .val q => Numerical.samplef floatOps keep s (ratToFloat q)
+        | _ => { s with parseErrors := s.parseErrors + 1 }
+      let (final, outs) := parsed.foldl (fun (acc : Numerical Float × List String) p =>
+        let s := step acc.1 p
+        (s, s!"n={s.samples} e={s.parseErrors} mean={bits s.mean} var={bits (s.varianceOf floatOps)} sd={bits (s.varianceOf floatOps).sqrt} min={bits s.min} max={bits s.max}" :: acc.2))
+        (Numerical.new floatOps, [])
+      let ordered := analyze floatOps rev final.values
+      let qouts := ps.map fun p =>
+        match quantileAt (0.0 : Float) ordered (Float.ofNat ordered.length * p).toInt64.toInt with
+        | .ok v => bits v
+        | .error _ => "panic"
+      if qouts.contains "panic" then "panic"
+      else
+        let vals := parsed.filterMap fun p => match p with | .val q => some (ratToFloat q) | _ => none
+        let last := s!"median={bits (median 0.0 ordered)} mode={bits (mode 0.0 (fun a b => a == b) ordered)} q[{commaJoin qouts}]"
+        s!"ok {tolCheck vals} " ++ bar (outs.reverse ++ [last])
+
+def runSplit (d s : Bytes) (n : Nat) : String :=
+  let (_, outs) := (List.range n).foldl (fun (acc : Splitter × List String) _ =>
+    let (v, sp) := acc.1.next'
+    (sp, s!"{Hex.enc v}/{if sp.done then 1 else 0}" :: acc.2)) (({ S := s, delim := d } : Splitter), [])
+  "ok " ++ commaJoin outs.reverse
 
 def handle : List String → String
+  | ["agg", "counter", h] =>
+    match decHexList h with
+    | some hist => "ok " ++ bar ((prefixes Counter.sample {} hist).map dumpCounter)
+    | none => "bad-args"
+  | ["agg", "subkey", h] =>
+    match decHexList h with
+    | some hist =>
+      let (_, outs, bad) := hist.foldl (fun (acc : SubKeyCounter × List String × Bool) e =>
+        if acc.2.2 then acc else
+        match acc.1.sample e with
+        | .ok s => (s, dumpSubKey s :: acc.2.1, false)
+        | .error _ => (acc.1, acc.2.1, true)) (({} : SubKeyCounter), [], false)
+      if bad then "panic" else "ok " ++ bar outs.reverse
+    | none => "bad-args"
+  | ["agg", "table", d, ops] =>
+    match Hex.dec d, (if ops = "." then some [] else (ops.splitOn ",").mapM parseTOp) with
+    | some d, some ops => runTable d ops
+    | _, _ => "bad-args"
+  | ["agg", "num", keep, rev, h, qs] =>
+    match decHexList h with
+    | some hist => runNum (keep == "1") (rev == "1") hist (if qs = "." then [] else qs.splitOn ",")
+    | none => "bad-args"
+  | ["split", d, s, n] =>
+    match Hex.dec d, Hex.dec s, n.toNat? with
+    | some d, some s, some n => runSplit d s n
+    | _, _, _ => "bad-args"
   | _ => "bad-op"
 
 end Rare.Drv.C07
